@@ -157,6 +157,90 @@ fn deliver_probe(rx: &mut Rx, probe: &CorpusSession, t_off: usize) -> Result<(),
     Ok(())
 }
 
+// ------------------------------------------------------------------------------------------
+// "a valid session pushed afterwards is still delivered", same TSI and same objects: the first
+// pass is the valid session damaged so that its object FAILS (object packets lost, the close-object
+// flag set on packets that are not the last one; FDT packets untouched, no payload altered, so a
+// wrong copy can never complete), the second pass is the intact session
+
+#[derive(Debug, Clone, Serialize, Deserialize)]
+pub struct RetryCase {
+    pub session: usize,
+    /// object packets lost in the first pass (indices into the object packets, mapped monotonically)
+    pub lose: Vec<u16>,
+    /// object packets whose close-object flag is set in the first pass
+    pub close: Vec<u16>,
+    /// receiver's max_objects_error (0 = failed objects are forgotten at once, the default)
+    pub max_objects_error: usize,
+}
+
+pub fn run_retry(c: &RetryCase) -> CaseResult {
+    let cs = corpus_cached(c.session);
+    let mut info = CaseInfo::new();
+    let obj_idx: Vec<usize> = cs.packets.iter().enumerate().filter(|(_, p)| crate::rfc::lct::decode(&p.1).map(|h| h.toi != 0).unwrap_or(false)).map(|(i, _)| i).collect();
+    if obj_idx.is_empty() {
+        return Ok(CaseInfo::excluded("domain: session without object packets"));
+    }
+    let pick = |v: &[u16]| -> std::collections::BTreeSet<usize> { v.iter().map(|i| obj_idx[((*i as usize) * obj_idx.len()) >> 16]).collect() };
+    let lose = pick(&c.lose);
+    let close = pick(&c.close);
+    let spec = RxSpec { object_max_cache_size: Some(1 << 20), max_objects_error: c.max_objects_error, ..RxSpec::default_once() };
+    let mut rx = Rx::new(&spec, Faults::none());
+    let mut n = 0u64;
+    for (i, (_, p)) in cs.packets.iter().enumerate() {
+        if lose.contains(&i) {
+            continue;
+        }
+        let p = if close.contains(&i) { apply_field_edit(p, &FieldEdit::CloseObject(true)) } else { p.clone() };
+        n += 1;
+        if let Err(pm) = caught(|| rx.push(&p, t0() + Duration::from_millis(n))) {
+            return Err(format!("receiver panicked in the damaged first pass: {}", pm));
+        }
+    }
+    let first = rx.mon.writers();
+    let failed_first = first.iter().any(|w| w.failed());
+    let completed_first = first.iter().filter(|w| w.completed()).count();
+    // second pass: the intact session, every packet in order
+    for (_, p) in cs.packets.iter() {
+        n += 1;
+        if let Err(pm) = caught(|| rx.push(p, t0() + Duration::from_millis(n))) {
+            return Err(format!("receiver panicked on the valid session after a damaged one: {}", pm));
+        }
+    }
+    let ws = rx.mon.writers();
+    for (toi, bytes) in &cs.expected {
+        let mine: Vec<_> = ws.iter().filter(|w| w.toi == *toi).collect();
+        if mine.iter().any(|w| w.completed() && w.data != *bytes) {
+            return Err(format!("toi {}: a copy completed with bytes that are not the object (no payload was altered)", toi));
+        }
+        if !mine.iter().any(|w| w.completed() && w.data == *bytes) {
+            return Err(format!(
+                "[{}] toi {}: the object failed in a damaged first pass ({} object packets lost, close-object flag set on {}; writers then: {:?}) and the intact session pushed afterwards on the same TSI was not delivered (max_objects_error = {}, nb_objects_error() = {}, nb_objects() = {}); writers: {:?}",
+                cs.label,
+                toi,
+                lose.len(),
+                close.len(),
+                first.iter().map(|w| w.trace()).collect::<Vec<_>>(),
+                c.max_objects_error,
+                rx.mr.nb_objects_error(),
+                rx.mr.nb_objects(),
+                mine.iter().map(|w| w.trace()).collect::<Vec<_>>()
+            ));
+        }
+    }
+    info.nt(failed_first && completed_first == 0);
+    info.label_if(failed_first, "object failed in the first pass");
+    info.label_if(completed_first > 0, "object completed in the first pass already");
+    info.label(format!("max_objects_error={}", c.max_objects_error));
+    Ok(info)
+}
+
+fn retry_strategy() -> BoxedStrategy<RetryCase> {
+    (0usize..corpus::CORPUS_TOTAL, proptest::collection::vec(any::<u16>(), 0..4), proptest::collection::vec(any::<u16>(), 0..3), prop_oneof![Just(0usize), Just(1), Just(4)])
+        .prop_map(|(session, lose, close, max_objects_error)| RetryCase { session, lose, close, max_objects_error })
+        .boxed()
+}
+
 pub fn hex(b: &[u8], max: usize) -> String {
     let mut s: String = b.iter().take(max).map(|x| format!("{:02x}", x)).collect();
     if b.len() > max {
@@ -925,6 +1009,18 @@ pub fn run(eng: &mut Engine) {
         seq_strategy,
         run_seq_case,
     );
+    // (d) the same session again after it failed
+    eng.generated(
+        PartCfg::new(
+            "retry",
+            "a corpus session damaged so that its object fails (0-3 object packets lost, close-object flag set on 0-2 object packets; FDT packets and payloads untouched), followed by the intact session on the same TSI; receiver max_objects_error 0 / 1 / 4; the object must be delivered byte-exact by the end and no wrong copy may complete; non-trivial = the object failed in the first pass and had not completed; distinct by case",
+            tier.pick(40_000, 800_000),
+        )
+        .hang_violates()
+        .limit_s(60),
+        retry_strategy,
+        run_retry,
+    );
 }
 
 pub fn replay(part: &str, case: &Value) -> Option<CaseResult> {
@@ -935,6 +1031,7 @@ pub fn replay(part: &str, case: &Value) -> Option<CaseResult> {
         }
         "header-subst" => Some(run_subst(&serde_json::from_value(case.clone()).ok()?)),
         "mutations" | "pinned" | "regress" => Some(run_seq_case(&serde_json::from_value(case.clone()).ok()?)),
+        "retry" => Some(run_retry(&serde_json::from_value(case.clone()).ok()?)),
         _ => None,
     }
 }
